@@ -78,6 +78,9 @@ func runC04(r *core.Run) (bool, string) {
 		}
 	}
 	for _, ds := range directed {
+		if rejectedAtoms[ds.Atoms[0]] {
+			continue
+		}
 		lays := exhaustiveLayouts(len(ds.Units))
 		r.Count("layouts_exhaustive_permutations", int64(len(lays)))
 		addJobs(ds, lays)
@@ -234,9 +237,20 @@ func runC04(r *core.Run) (bool, string) {
 	for _, j := range jobs {
 		bySet[j.set] = append(bySet[j.set], j)
 	}
-	var samples int64
-	core.Parallel(len(sets), 16, func(i int) {
-		ds := sets[i]
+	// directed sets first, so that the replay file of a signature holds the smallest input that shows it
+	var order []*declSet
+	for _, ds := range sets {
+		if strings.HasPrefix(ds.Origin, "directed:") {
+			order = append(order, ds)
+		}
+	}
+	nDirected := len(order)
+	for _, ds := range sets {
+		if !strings.HasPrefix(ds.Origin, "directed:") {
+			order = append(order, ds)
+		}
+	}
+	judgeSet := func(ds *declSet) {
 		si := infos[ds]
 		if si.err != "" {
 			return
@@ -283,15 +297,31 @@ func runC04(r *core.Run) (bool, string) {
 			r.Count("layouts_judged/"+strings.SplitN(ds.Origin, ":", 2)[0], 1)
 			r.Count(fmt.Sprintf("layouts_by_file_count/%d", len(j.lay.Files)), 1)
 			cur := c04Judge(r, ds, si, j, defs, string(vb))
+			if len(j.lay.Files) > 1 {
+				// noted, not judged (the statement does not fix the order of independent definitions):
+				// goose prints one (* file.go *) comment per file in its processing order
+				isFile := map[string]bool{}
+				for _, f := range j.lay.Files {
+					isFile[f.Name] = true
+				}
+				var seen []string
+				for _, c := range readVComments(string(vb)) {
+					if isFile[c] {
+						seen = append(seen, c)
+					}
+				}
+				if sort.StringsAreSorted(seen) {
+					r.Count("noted/multi_file_layouts_with_file_comments_in_path_order", 1)
+				} else {
+					r.Count("noted/multi_file_layouts_with_file_comments_NOT_in_path_order", 1)
+				}
+			}
 			if ref == nil {
 				ref, refJob = cur, j
 			} else {
 				c04Metamorphic(r, ds, refJob, j, ref, cur, batchDir)
 			}
-			if (j.k == 1 || j.k == 0 && len(bySet[ds]) == 1) && samples < 40 {
-				imu.Lock()
-				samples++
-				imu.Unlock()
+			if j.k == 1 || j.k == 0 && len(bySet[ds]) == 1 {
 				var names []string
 				for _, d := range defs {
 					names = append(names, d.Name)
@@ -300,7 +330,9 @@ func runC04(r *core.Run) (bool, string) {
 					"files": ds.render(j.lay), "definitions_in_order": names, "verdict_signatures": j.errTxt})
 			}
 		}
-	})
+	}
+	core.Parallel(nDirected, 16, func(i int) { judgeSet(order[i]) })
+	core.Parallel(len(order)-nDirected, 16, func(i int) { judgeSet(order[nDirected+i]) })
 	r.Set("layouts_total", len(jobs))
 	r.Set("goose_crashed_layouts", crashed)
 	// atoms exercised
